@@ -6,7 +6,11 @@ CFG = dict(
               "partition_exact_ScanFloat3", "partition_exact_ScanFloat2", "partition_exact_ScanFloat1",
               "partition_exact_ModifyFloat3", "partition_exact_ModifyFloat2", "partition_exact_ModifyFloat1",
               "sequential_exact_ScanPrimitives_Triangle", "sequential_exact_ScanPrimitives_Point", "sequential_exact_ScanPrimitives_LineStrip",
-              "methods_covered", "topologies_covered", "all_specs_exact", "guards"],
+              "methods_covered", "topologies_covered", "all_specs_exact", "guards",
+              "interleaving_irrelevant", "interleaving_irrelevant_pair", "sequential_schedule_is_interleaving",
+              "modify_parallel_eq_sequential_ModifyFloat3", "modify_parallel_eq_sequential_ModifyFloat2", "modify_parallel_eq_sequential_ModifyFloat1",
+              "scan_multiset_ScanFloat3", "scan_multiset_ScanFloat2", "scan_multiset_ScanFloat1",
+              "scan_multiset_ScanPrimitives_Triangle", "scan_multiset_ScanPrimitives_Point", "scan_multiset_ScanPrimitives_LineStrip"],
     streams=[dict(name="c10", n=dict(quick=40, thorough=0))],
     trusted=T_COMMON + ["engine F extractor /verif/go/facts/c10.go (fails on any shape it does not understand)"],
     residue=[],
